@@ -15359,6 +15359,12 @@ gcry_error_t CallasDonnerhackeFinneyShawThayerRFC4880::SymmetricDecryptAEAD
 			std::cerr << "INFO: SymmetricDecryptAEAD len = " << len <<
 				std::endl;
 		}
+		if (len == 0)
+		{
+			gcry_free(buf);
+			gcry_cipher_close(hd);
+			return gcry_error(GPG_ERR_TOO_SHORT); // error: empty last chunk
+		}
 		unsigned char inbuf[len], outbuf[len], tag[taglen];
 		if (verbose > 2)
 			std::cerr << "INFO: SymmetricDecryptAEAD in = " << std::hex;
